@@ -18,6 +18,13 @@ for N in $NAMES; do
     VERIF_OUT=/tmp/rs-out-$N VERIF_REPO_SRC=$WT/src ./check $P quick > /tmp/rs-$N.log 2>&1; C=$?
     NOTE=""
     if [ $C = 0 ]; then
+      # seeds recorded as caught by ANOTHER property's check (meta.json caught_by_property): run those
+      for Q in $(/venv/bin/python -c "import json; print(' '.join(q for q in json.load(open('seeded/$N/meta.json')).get('caught_by_property', []) if q != '$P'))"); do
+        VERIF_OUT=/tmp/rs-out-$N VERIF_REPO_SRC=$WT/src ./check $Q quick > /tmp/rs-$N.log 2>&1; C=$?
+        if [ $C != 0 ]; then NOTE="(caught by $Q)"; break; fi
+      done
+    fi
+    if [ $C = 0 ]; then
       # quiet check: does the change still break the property on today's tree?  (its own demo decides)
       ( cd /tmp && PYTHONPATH=$WT/src:$HERE/shims timeout 600 /venv/bin/python $HERE/seeded/$N/demo.py > /tmp/rs-$N.demo.log 2>&1 ); D=$?
       if [ $D = 0 ]; then NOTE="NEUTRALISED (own demo exits 0 on HEAD+patch: a later fix made the change harmless)"; else NOTE="MISSED (own demo exits $D)"; fi
